@@ -11,7 +11,7 @@ import (
 func init() {
 	register(&propDef{
 		id: "C18", level: "other", perCfg: true,
-		explain: "Necessary structural conditions of C18, decided for all paths of the current source: (U1) inside ctxio the wrapped net.Conn has exactly one consumer, the bufio.Reader built in the constructor - every read primitive of ctxio.Conn reads through that reader field and nothing ever calls Read on the raw connection; (U2) Connection.Upgrade returns the same connection object the request was sent on, and the service's connection loop hands HandleMessage the very object it reads frames from, which is stored unchanged in Call.Conn; (U3) one persistent reader per connection: the reader/conn fields are written only in the constructor, with reader = bufio.NewReader(same conn), and every place that creates a wrapper does so outside any loop. Rule instances are found by role (field types, callee identities), not by name.",
+		explain: "Necessary structural conditions of C18, decided for all paths of the current source: (U1) inside ctxio the wrapped net.Conn has exactly one consumer, the bufio.Reader built in the constructor - every read primitive of ctxio.Conn reads through that reader field and nothing ever calls Read on the raw connection; (U2) Connection.Upgrade returns the same connection object the request was sent on, and the service's connection loop hands HandleMessage the very object it reads frames from, which is stored unchanged in Call.Conn; (U3) one persistent reader per connection: the reader/conn fields are written only in the constructor, with reader = bufio.NewReader(same conn), and every place that creates a wrapper does so outside any loop. Rule instances are found by role (field types, callee identities), not by name. U1b/U1c every read goes through the one buffered reader and a Discard equals the delivered count. U4 (= C17.D1-D3), U5 (= C02.F2) the frame handed up is the delivered one.",
 		notDec:  "bufio.Reader.Read semantics (returns buffered bytes first - library contract); real segmentation; behaviour of custom ReadWriterContext implementations supplied by users.",
 		trusted: []string{"bufio.Reader: Read and ReadBytes consume the same buffered stream exactly once and in order"},
 		run:     runC18,
